@@ -2,19 +2,23 @@
 C14 (OpenMetrics half) — the OpenMetrics parser is total: any input ends in families or ValueError.
 
 Statement of the property for the model: for every input string and every choice of the number parameters
-(`int()`, `float()`, comparisons, `math.isnan`, the regex classes), `omParse` returns `.ok` or `.error .valueError` —
-never another class, never `timeout` (= the loops terminate).  On the unchanged tree this is FALSE: the witness
-theorems below (kernel-evaluated on the model) exhibit KeyError, TypeError, AttributeError (three sites) and
-OverflowError (IndexError, F8, two sites: repaired during this work), each confirmed on the real parser by the harness (`harness/props/c14om.py`, corpus).
+(`int()`, `float()`, comparisons, `math.isnan`, `Timestamp.__float__`, the regex classes), `omParse` returns `.ok` or
+`.error .valueError` — never another class, never `timeout` (= the loops terminate).
+
+History: on the snapshot this was false in seven ways (KeyError, TypeError, AttributeError ×3 sites, IndexError ×2
+sites, OverflowError); all were repaired in /repo (e804336, 979e8ea, 74e3eee, 6c551bc, 007bfee, afb5815).  The model
+follows the repaired code and branches on each guard as extracted from the source, so a removed guard breaks
+`om_parser_total_partial` (and the `regress_*` theorems).  Two classes remain at HEAD 6c551bc (`witness_*`): TypeError
+in `_check_histogram` on a native-histogram sample named `…_gsum`, OverflowError in `Timestamp.__float__`.
 
 What is proved, for every input and every parameter choice:
 * `parse_timestamp_total`, `parse_remaining_text_total`, `parse_sample_total`, `parse_labels_om_total`
-  (incl. termination of the label loop), `nh_detector_total`: only ValueError escapes from the per-line functions;
-  the `parts[1]` IndexError of `_parse_timestamp` is unreachable (`int(parts[0])` raises first when there is no dot);
+  (incl. termination of the label loop), `nh_detector_total`, `unquote_unescape_total`: only ValueError escapes from
+  the per-line functions; the `parts[1]` IndexError of `_parse_timestamp` is unreachable;
 * `group_for_sample_guarded`: the three `del d[...]` KeyError sites are guarded by the label checks of the main loop;
-* `om_parser_total_partial`: the whole parser (`omParse`, i.e. tokenisation of every line and the line/family fold
-  with `build_metric` and `_check_histogram`), under the hypothesis `OutsideFindings` that excludes exactly the
-  finding classes.
+* `om_parser_total_partial`: the whole parser (tokenisation of every line incl. `_parse_nh_sample` / `_parse_nh_struct`,
+  the line/family fold, `build_metric`, `_check_histogram`) under `OutsideFindings`, which excludes exactly the two
+  remaining classes.
 -/
 import PromVerif.Lemmas.OMTotal
 import PromVerif.Lemmas.OMFold4
@@ -72,118 +76,119 @@ example : (parseTimestamp toyP cs!"-1.5").toOption = some (some (.stamp (-1) (-5
 example : (parseTimestamp toyP cs!"2e0").toOption = some (some (.flt 5)) := by decide
 example : errOf (parseTimestamp toyP cs!"1.x") = some .valueError := by decide
 
-/-! ## witnesses: the model raises the classes found on the real parser (F8, F9 and the new sites) -/
+/-! ## regressions: the classes found on the unrepaired parser are gone (kernel-evaluated on the model, which
+branches on the guards extracted from the source — removing a guard flips its flag in `Generated/OMParse.lean`) -/
 
-/-- F9a: `items['count']` on a native-histogram-shaped value without the key -/
-theorem witness_keyError : errOf (parseDoc "# TYPE a histogram\na {foo:1}\n# EOF\n") = some .keyError := by decide
+/-- 979e8ea: a native-histogram value without a required field is a ValueError (was KeyError) -/
+theorem regress_nh_missing_field : errOf (parseDoc "# TYPE a histogram\na {foo:1}\n# EOF\n") = some .valueError := by decide
 
-/-- F9b: `math.isnan(None)` on a native-histogram sample whose name ends in a counter-like suffix -/
-theorem witness_typeError :
-    errOf (parseDoc "# TYPE a histogram\na_total {count:1,sum:1,schema:1,zero_threshold:1,zero_count:1}\n# EOF\n") = some .typeError := by
+/-- 74e3eee: a native-histogram sample named `<family>_total` is accepted (was TypeError in `math.isnan(None)`) -/
+theorem regress_nh_total :
+    isOkDoc "# TYPE a histogram\na_total {count:1,sum:1,schema:1,zero_threshold:1,zero_count:1}\n# EOF\n" = true := by decide
+
+/-- 74e3eee: … and one named `<family>_gcount` (was AttributeError `None.is_integer`) -/
+theorem regress_nh_gcount :
+    isOkDoc "# TYPE a histogram\na_gcount {count:1,sum:1,schema:1,zero_threshold:1,zero_count:1}\n# EOF\n" = true := by decide
+
+/-- 6c551bc: the suffix rule applies to a name given inside the braces (was AttributeError `None.get`) -/
+theorem regress_nh_quoted_bucket :
+    errOf (parseDoc "# TYPE a histogram\n{\"a_bucket\"} {count:1,sum:1,schema:1,zero_threshold:1,zero_count:1}\n# EOF\n") = some .valueError := by
   decide
 
-/-- F9c: `Timestamp > float` reads `.sec` of a float -/
-theorem witness_attributeError_timestamp : errOf (parseDoc "a 1 1.5\na 1 2e0\n# EOF\n") = some .attributeError := by decide
+/-- 007bfee: a group mixing a `Timestamp` and a float timestamp is compared (was AttributeError) … -/
+theorem regress_mixed_timestamps : isOkDoc "a 1 1.5\na 1 2e0\n# EOF\n" = true := by decide
 
-/-- the reflected comparison `float > Timestamp` ends in `Timestamp.__lt__`, same class -/
-theorem witness_attributeError_timestamp_reflected : errOf (parseDoc "a 1 2e0\na 1 1.5\n# EOF\n") = some .attributeError := by decide
+/-- … in both orders, and going backwards is the ordinary ValueError -/
+theorem regress_mixed_timestamps_backwards : errOf (parseDoc "a 1 2e0\na 1 1.5\n# EOF\n") = some .valueError := by decide
 
-/-- new: `None.is_integer()` on a native-histogram sample named `<family>_gcount` -/
-theorem witness_attributeError_is_integer :
-    errOf (parseDoc "# TYPE a histogram\na_gcount {count:1,sum:1,schema:1,zero_threshold:1,zero_count:1}\n# EOF\n") = some .attributeError := by
-  decide
+/-- afb5815: an integer value too large for a float is accepted (was OverflowError; the toy limit is 10^6) -/
+theorem regress_huge_int : isOkDoc "# TYPE a counter\na_total 1000000\n# EOF\n" = true := by decide
 
-/-- new: `None.get('le')` on a label-less native-histogram sample named `<family>_bucket` through the quoted-name syntax -/
-theorem witness_attributeError_labels_get :
-    errOf (parseDoc "# TYPE a histogram\n{\"a_bucket\"} {count:1,sum:1,schema:1,zero_threshold:1,zero_count:1}\n# EOF\n") = some .attributeError := by
-  decide
-
-/-- F8 (repaired in /repo, commit e804336, and in the shared `ParseCore.unquoteUnescape`): a metadata name token made
-of whitespace other than the space used to raise IndexError (`text[0]` after `strip()`); now ValueError -/
+/-- e804336 (F8): a metadata name token made of whitespace other than the space is a ValueError (was IndexError) -/
 theorem f8_repaired_metadata : errOf (parseDoc "# HELP \t x\n# EOF\n") = some .valueError := by decide
 
-/-- the second site of F8 found here — a sample whose quoted name is blank (`{" "} 1`) — goes through the same
-function and is repaired by the same change -/
+/-- … and so is a sample whose quoted name is blank -/
 theorem f8_repaired_sample_name : errOf (parseDoc "{\" \"} 1\n# EOF\n") = some .valueError := by decide
 
 /-- `_unquote_unescape` is total since the repair -/
 theorem unquote_unescape_total (t : Str) : ∀ e, unquoteUnescape t = .error e → e = .valueError := unquoteUnescape_safe' t
 
-/-- new: `math.isnan(<int too large for a float>)` (the toy instance puts the limit at 10^6, CPython near 2^1024) -/
-theorem witness_overflowError : errOf (parseDoc "# TYPE a counter\na_total 1000000\n# EOF\n") = some .overflowError := by decide
+/-! ## the two classes that still escape (HEAD 6c551bc) -/
 
-/-- and the accepted shapes next to them -/
-example : isOkDoc "# TYPE a histogram\na {count:1,sum:1,schema:1,zero_threshold:1,zero_count:1}\n# EOF\n" = true := by decide
-example : isOkDoc "a 1 1.5\na 1 2.5\n# EOF\n" = true := by decide
-example : isOkDoc "# TYPE a counter\na_total 999999\n# EOF\n" = true := by decide
+/-- `_check_histogram` reads `s.value < 0` of a native-histogram sample whose name continues the family name with
+`_gsum` (the samples 74e3eee lets into the list): TypeError -/
+theorem witness_typeError_check_histogram :
+    errOf (parseDoc "# TYPE a histogram\na_gsum {count:1,sum:1,schema:1,zero_threshold:1,zero_count:1}\n# EOF\n") = some .typeError := by
+  decide
+
+/-- `Timestamp.__float__` of a huge `sec` in the comparison 007bfee introduced: OverflowError (toy limit 10^6) -/
+theorem witness_overflowError_timestamp : errOf (parseDoc "a 1 1000000\na 1 2e0\n# EOF\n") = some .overflowError := by decide
 
 /-! ## the whole parser -/
 
-/-- the detector takes the line for a native histogram (`_parse_nh_sample` goes on to `_parse_nh_struct`) -/
-def nhShaped (line : Str) : Bool :=
-  match nhDetect line with
-  | .ok (some _) => true
+/-- the line, read as a native histogram, gives a sample whose name ends in `_gsum` -/
+def nhGsum (P : Params) (line : Str) : Bool :=
+  match parseNhLine P line with
+  | .ok (some s) => endsWith sGsum s.name
   | _ => false
 
-/-- the line, read as a plain sample, has no integer value beyond the range of `float` and a timestamp of the form
-`stamps` says (`true`: `Timestamp`, i.e. int or `sec.frac`; `false`: float spelling) — or none, or does not parse -/
-def sampleFine (P : Params) (stamps : Bool) (line : Str) : Bool :=
+/-- the line, read as a plain sample, has no `Timestamp` that fails to convert to float -/
+def tsConverts (P : Params) (line : Str) : Bool :=
   match parseSample P line with
   | .error _ => true
   | .ok s =>
-    (match s.value with
-     | some (.int n) => !P.intTooBig n
-     | _ => true) &&
-    (match s.ts with
-     | none => true
-     | some (.stamp _ _) => stamps
-     | some (.flt _) => !stamps)
+    match s.ts with
+    | some (.stamp a b) => (P.tsFloat a b).isSome
+    | _ => true
 
-/-- a document outside the confirmed finding classes: no native-histogram-shaped line (F9 KeyError / TypeError and
-the three `None` attribute sites), sample timestamps of one form (F9 AttributeError in `Timestamp.__gt__/__lt__`),
-no integer value too large for a float (OverflowError in `math.isnan`) -/
-def OutsideFindings (P : Params) (stamps : Bool) (text : Str) : Bool :=
-  (docLines text).all (fun line => !nhShaped line && sampleFine P stamps line)
+/-- a document outside the two remaining finding classes -/
+def OutsideFindings (P : Params) (text : Str) : Bool :=
+  (docLines text).all (fun line => !nhGsum P line && tsConverts P line)
 
 /-
-Full statement (false on the unchanged tree, see the witnesses):
-  ∀ P text, omParse P text = .ok _ ∨ omParse P text = .error .valueError
+Full statement (false at HEAD 6c551bc, see the two witnesses):
+  ∀ P text, NaNLiteral P → DigitsNotSpace P → omParse P text = .ok _ ∨ omParse P text = .error .valueError
 -/
-/-- **the OpenMetrics parser is total outside the finding classes**: for every input string and every choice of the
-number parameters and regex classes, the model returns families or ValueError — no other class, no `timeout`
-(the label loop, the scanners and the fold terminate within their fuel).  `_partial`: the hypothesis
-`OutsideFindings` excludes exactly the classes the witness theorems exhibit; nothing else is assumed. -/
-theorem om_parser_total_partial (P : Params) (stamps : Bool) (text : Str) (h : OutsideFindings P stamps text = true) :
-    ∀ e, omParse P text = .error e → e = .valueError := by
+/-- **the OpenMetrics parser is total**: for every input string and every choice of the number parameters and regex
+classes (with the two interpreter facts `float("NaN")` is a NaN and no `\d` character is whitespace), the model
+returns families or ValueError — no other class, no `timeout`.  Native-histogram-shaped lines, mixed timestamp forms
+and huge integer values are covered (they were hypotheses before the repairs).  `_partial`: `OutsideFindings` excludes
+exactly the two classes of the witnesses above; nothing else is assumed. -/
+theorem om_parser_total_partial (P : Params) (hnan : NaNLiteral P) (hd : DigitsNotSpace P) (text : Str)
+    (h : OutsideFindings P text = true) : ∀ e, omParse P text = .error e → e = .valueError := by
   unfold OutsideFindings at h
   rw [List.all_eq_true] at h
-  apply omParse_safe P stamps text
-  · intro line hl p hp
-    have := (h line hl)
-    simp only [Bool.and_eq_true, Bool.not_eq_true', nhShaped, hp] at this
-    exact absurd this.1 (by simp)
+  apply omParse_safe P hnan hd text
   · intro line hl s hs
     have := (h line hl)
-    simp only [Bool.and_eq_true, sampleFine, hs] at this
-    obtain ⟨_, h1, h2⟩ := this
-    constructor
-    · intro n hn
-      rw [hn] at h1
-      simpa using h1
-    · cases hts : s.ts with
-      | none => trivial
-      | some t =>
-        rw [hts] at h2
-        cases t with
-        | stamp a b => exact h2
-        | flt b => simpa [TsClass] using h2
+    simp only [Bool.and_eq_true, Bool.not_eq_true', nhGsum, hs] at this
+    exact this.1
+  · intro line hl s hs a b hts
+    have := (h line hl)
+    simp only [Bool.and_eq_true, tsConverts, hs, hts] at this
+    exact this.2
 
-/-- the hypothesis is satisfiable by documents of every kind (and fails on the witnesses) -/
-example : OutsideFindings toyP true cs!"# TYPE a histogram\na_bucket{le=\"1\"} 1 5\na_bucket{le=\"+Inf\"} 2 5\n# TYPE b counter\nb_total 3 # {t=\"x\"} 1 7\n# EOF\n" = true := by decide
-example : OutsideFindings toyP false cs!"a 1 2e0\na 2 3e0\n# EOF\n" = true := by decide
-example : OutsideFindings toyP true cs!"a 1 1.5\na 1 2e0\n# EOF\n" = false := by decide
-example : OutsideFindings toyP false cs!"a 1 1.5\na 1 2e0\n# EOF\n" = false := by decide
-example : OutsideFindings toyP true cs!"# TYPE a histogram\na {foo:1}\n# EOF\n" = false := by decide
-example : OutsideFindings toyP true cs!"# TYPE a counter\na_total 1000000\n# EOF\n" = false := by decide
+/-- the interpreter facts hold for the toy instance; the hypothesis is satisfiable and fails on the witnesses -/
+example : NaNLiteral toyP := by
+  intro f h
+  have : toyP.pyFloat sNaN = some 0 := by decide
+  rw [this] at h; cases h; decide
+
+example : DigitsNotSpace toyP := by
+  intro c h
+  have h' : c.isDigit = true := h
+  simp only [Char.isDigit, Bool.and_eq_true, decide_eq_true_eq] at h'
+  obtain ⟨h1, h2⟩ := h'
+  have e1 : c.val.toNat = c.toNat := rfl
+  have a1 : 48 ≤ c.toNat := by have := UInt32.le_iff_toNat_le.mp h1; simpa [e1] using this
+  have a2 : c.toNat ≤ 57 := by have := UInt32.le_iff_toNat_le.mp h2; simpa [e1] using this
+  simp only [isPySpace]
+  simp
+  omega
+
+example : OutsideFindings toyP cs!"# TYPE a histogram\na_bucket{le=\"1\"} 1 5\na_bucket{le=\"+Inf\"} 2 5\na {count:1,sum:1,schema:1,zero_threshold:1,zero_count:1}\n# TYPE b counter\nb_total 3 # {t=\"x\"} 1 7\n# EOF\n" = true := by decide
+example : OutsideFindings toyP cs!"a 1 1.5\na 1 2e0\n# EOF\n" = true := by decide
+example : OutsideFindings toyP cs!"# TYPE a histogram\na_gsum {count:1,sum:1,schema:1,zero_threshold:1,zero_count:1}\n# EOF\n" = false := by decide
+example : OutsideFindings toyP cs!"a 1 1000000\na 1 2e0\n# EOF\n" = false := by decide
 
 end PromVerif.Props.C14OM
